@@ -130,6 +130,24 @@ def varopt(facts):
     return out
 
 
+def _blocks(n, acc):
+    if isinstance(n, dict):
+        if n.get("k") == "Block":
+            acc.append(n)
+        for v in n.values():
+            _blocks(v, acc)
+    elif isinstance(n, list):
+        for v in n:
+            _blocks(v, acc)
+    return acc
+
+
+def _walk_list(n):
+    acc = []
+    walk(n, lambda x: acc.append(x))
+    return acc
+
+
 def _callnames(n):
     out = []
     walk(n, lambda x: out.append(x.get("cname")) if x.get("k") == "Call" and x.get("cname") else None)
@@ -181,7 +199,46 @@ def ebpps(facts):
         c2 = txt(el["c"]).replace(" ", "") if el is not None and el.get("k") == "If" else ""
         ok = ok and c2 == "(sk.get_cumulative_weight()>get_cumulative_weight())" and "swap" in _callnames(el.get("t"))
         out.append(ob("ebpps.merge", "ebpps_sketch::merge(%s):orientation" % form, f["pat"], "discharged" if ok else "violated", "an input without weight is a no-op; the lighter sketch is always replayed into the heavier one (swap when the input is heavier)" if ok else "merge orientation changed (`%s`): replaying the heavier sketch into the lighter one gives items a contribution to c above 1" % c2, f["qname"]))
+    # every down-sampling step by new_rho / rho_ is followed, in the same block, by rho_ = new_rho (the ratio of the NEXT step
+    # is taken against the rho that was actually applied)
+    for f in [g for g in fs.values() if g.get("rect") == R and g["name"] in ("internal_update", "internal_merge") and g.get("body") is not None]:
+        blocks = []
+        _blocks(f["body"], blocks)
+        j = 0
+        for b in blocks:
+            st = stmts_of(b)
+            for i, s_ in enumerate(st):
+                ds = []
+                walk(s_, lambda x: ds.append(x) if x.get("k") == "Call" and x.get("cname") == "downsample" and "rho_" in txt(x) else None)
+                if not ds or s_.get("k") not in ("If", "Expr"):
+                    continue
+                inner = []
+                _blocks(s_, inner)
+                if any(any(y is ds[0] for y in _walk_list(bb)) for bb in inner):
+                    continue  # the call belongs to a nested block, which is visited on its own
+                inl = {d: v["init"] for d, v in local_decls(f).items() if v.get("init") is not None and v.get("const")}
+                num = strip_all(ds[0]["args"][0])
+                new_rho = txt(num["l"]).replace(" ", "") if num.get("k") == "Bin" and num.get("op") == "/" else "?"
+                later = [_t(x) for x in st[i + 1:]]
+                ok = ("(rho_=%s)" % new_rho) in later
+                out.append(ob("ebpps.rho", "ebpps_sketch::%s:rho-follows-downsample#%d" % (f["name"], j), ds[0]["loc"], "discharged" if ok else "violated", "the sample is down-sampled by %s / rho_ and rho_ is then set to %s" % (new_rho, new_rho) if ok else "the sample is down-sampled by %s / rho_ but rho_ is not set to %s afterwards in this block: the next step divides by a rho that was never applied, and c drifts below min(k, W / w_max)" % (new_rho, new_rho), f["qname"]))
+                j += 1
     S = "datasketches::ebpps_sample"
+    fn = _fn(fs, S, "move_one_to_partial")
+    if fn is not None:
+        calls = []
+        walk(fn["body"], lambda x: calls.append(x) if x.get("k") == "Call" and x.get("cname") == "random_idx" else None)
+        decls = local_decls(fn)
+        rnd = [v for v in decls.values() if v.get("init") is not None and "random_idx" in txt(v["init"])]
+        used = False
+        if rnd:
+            refs = []
+            walk(fn["body"], lambda x: refs.append(x) if x.get("k") == "Ref" and x.get("d") == rnd[0]["d"] else None)
+            idxuse = []
+            walk(fn["body"], lambda x: idxuse.append(x) if x.get("k") in ("Index", "OpCall") and any(y.get("k") == "Ref" and y.get("d") == rnd[0]["d"] for y in _walk_list(x)) and "data_" in txt(x) else None)
+            used = bool(idxuse)
+        ok = bool(calls) and used and any("data_.size()" in txt(c) for c in calls)
+        out.append(ob("ebpps.sample", "ebpps_sample::move_one_to_partial:random-choice", fn["pat"], "discharged" if ok else "violated", "the item demoted to the partial slot is data_[random_idx(data_.size())]" if ok else "the item demoted to the partial slot is not chosen by random_idx(data_.size()): when data_ was not shuffled just before (two call paths), the same positions are always evicted and inclusion stops being proportional to weight", fn["qname"]))
     fn = _fn(fs, S, "get_sample")
     if fn is not None:
         t = [_t(s) for s in stmts_of(fn["body"])]
